@@ -169,6 +169,7 @@ NextSkip == /\ Cardinality(aux.done) < MaxOps
 Targets == {"bool", "i8", "u8", "i16", "u16", "i32", "u32", "i64", "u64", "f32", "f64", "str", "vec_i32", "objscope"} \cup (IF Arch = "xml" THEN {} ELSE {"null"})
            \cup (IF Arch = "msgpack" THEN {"tp_ns", "vec_u8"} ELSE {})
 
+NumTargets == {"bool", "i8", "u8", "i16", "u16", "i32", "u32", "i64", "u64", "f32", "f64"}
 \* pseudo target "objscope": the value is opened as a nested object (one member requested), then a sibling is requested
 TypedRoots(T) == IF T = "objscope" THEN
                    { [k |-> "obj", ops |-> <<[op |-> "obj", ks |-> Ka, ops |-> <<[op |-> "req", ks |-> Ka, t |-> "i32"]>>], [op |-> "req", ks |-> Kb, t |-> "i32"]>>],
@@ -177,10 +178,13 @@ TypedRoots(T) == IF T = "objscope" THEN
                  (IF Arch = "xml" THEN {} ELSE { [k |-> "leaf", t |-> T] }) \cup {
                    [k |-> "arr", ops |-> <<[op |-> "elem", t |-> T], [op |-> "elem", t |-> "i32"]>>],
                    [k |-> "obj", ops |-> <<[op |-> "req", ks |-> Ka, t |-> T], [op |-> "req", ks |-> Kb, t |-> "i32"]>>] }
+                 \cup (IF Arch = "xml" /\ T \in NumTargets \cup {"str"}            \* XML attribute position
+                       THEN { [k |-> "obj", at |-> TRUE, ops |-> <<[op |-> "attr", ks |-> Ka, t |-> T], [op |-> "req", ks |-> Kb, t |-> "i32"]>>] } ELSE {})
                  \cup (IF Arch = "msgpack" /\ T \in {"i32", "str", "u8"}      \* integer keys requested through unsigned / signed key types
                        THEN { [k |-> "obj", ik |-> TRUE, ops |-> <<[op |-> "req", ku |-> 1, t |-> T], [op |-> "req", ki |-> 2, t |-> "i32"]>>] } ELSE {})
 Wrap(v, r) == IF r.k = "leaf" THEN v ELSE IF r.k = "arr" THEN <<"arr", <<v, U(7)>>>>
               ELSE IF "ik" \in DOMAIN r THEN <<"map", <<<<U(1), v>>, <<U(2), U(7)>>>>>>
+              ELSE IF "at" \in DOMAIN r THEN <<"map", <<<<<<"attr", Ka>>, v>>, <<S(Kb), U(7)>>>>>>
               ELSE <<"map", <<<<S(Ka), v>>, <<S(Kb), U(7)>>>>>>
 
 \* C04: numeric sources: an exhaustive integer range, every type limit +-2, 2^k +- 1, booleans and floating point values
@@ -198,12 +202,10 @@ NumCorpus == { IntSmall(n) : n \in (0 - NumNeg)..NumPos }
              \cup { x \in NumLimits : Arch # "msgpack" \/ ~JsonBigNeg(x) }          \* MessagePack cannot carry integers below -2^63
              \cup { <<"bool", TRUE>>, <<"bool", FALSE>> }
              \cup (IF Arch = "msgpack" THEN FloatCorpus ELSE IF Arch = "xml" THEN XFloats ELSE JFloats)
-NumTargets == {"bool", "i8", "u8", "i16", "u16", "i32", "u32", "i64", "u64", "f32", "f64"}
-
 TypedCorpus == (IF Arch = "msgpack" THEN ScalarCorpus ELSE IF Arch = "xml" THEN XScalars \cup {<<"nil">>} ELSE JScalars) \cup { <<"arr", <<U(1), U(200), U(-3)>>>>, <<"arr", <<>>>>, <<"arr", <<U(1), S(<<122>>)>>>>, <<"map", <<<<S(Ka), U(1)>>>>>> }
 
 InitTyped == /\ \E v \in (IF Mode = "numeric" THEN NumCorpus ELSE TypedCorpus),
-                   T \in (IF TypedTargets # {} THEN TypedTargets ELSE IF Mode = "numeric" THEN NumTargets ELSE Targets) : \E r \in TypedRoots(T) : doc = Wrap(v, r) /\ root = r
+                   T \in (IF TypedTargets # {} THEN TypedTargets ELSE IF Mode = "numeric" THEN NumTargets ELSE Targets) : \E r \in TypedRoots(T) : ("at" \in DOMAIN r => v[1] \notin {"arr", "map", "nil"}) /\ doc = Wrap(v, r) /\ root = r
              /\ w \in Widths
              /\ pol \in {ThrowPol, SkipPol}
              /\ aux = [cut |-> 0, ci |-> 0, cb |-> 0]
